@@ -35,7 +35,7 @@ func init() {
 		Rule: "exhaustive: a skeleton document with every position ResolveRefsIn, the ten resolvers and resolveContentRefs/resolveExampleRefs visit (table WalkSites: the nine component " +
 			"collections incl. links, response headers/links, examples of parameters, headers and media types, content of parameters and headers, encoding headers, schemas, callbacks, path items, " +
 			"operations) × 16 reference spellings (relative, ./, ../ escape, sub-directory, absolute, file://, http, https, " +
-			"scheme-relative, same path as the root on another host, whole-file and fragment forms, missing target) × 3 entry points × both switch settings (quick: a sixth of the grid); " +
+			"scheme-relative, same path as the root on another host, whole-file and fragment forms, missing target) × 4 entry points (LoadFromFile/LoadFromURI, LoadFromDataWithPath, LoadFromData, the public ResolveRefsIn(doc, nil) on a fresh Loader) × both switch settings (quick: a sixth of the grid); " +
 			"enumerated families: $ref path items whose target is itself a $ref (target resolved / sorting later / in progress), a reference text in progress for one kind and met under another kind " +
 			"(6 shapes × every sub-position), targets only the raw re-read reaches; hand-made cross-document shapes (corpus) and a seeded random stream of multi-file universes " +
 			"(element files are also read through references of other kinds); root locations whose directory or file name holds '#', '?' or a literal %XX (7 roots × 3 references × 3 entry points × switch); " +
@@ -541,8 +541,10 @@ func c11Derive(c hx.Case) hx.Case {
 	files := jlist(g["files"])
 	c["allowed"] = jbool(g, "allowed")
 	entry := jstr(g, "entry")
-	if entry == "reader" {
-		entry = "data" // LoadFromIoReader (and LoadFromStdin) read everything and call LoadFromData
+	if entry == "reader" || entry == "resolveInNil" {
+		// LoadFromIoReader (and LoadFromStdin) read everything and call LoadFromData; the public ResolveRefsIn(doc, nil) on a
+		// fresh Loader and a document the caller unmarshalled is LoadFromData without the unmarshalling
+		entry = "data"
 	}
 	c["entry"] = entry
 	c["rootInStore"] = jbool(g, "rootInStore")
@@ -634,6 +636,11 @@ func runC11(c hx.Case) any {
 			_, err = loader.LoadFromDataWithPath(rootBody, ru)
 		case "reader":
 			_, err = loader.LoadFromIoReader(bytes.NewReader(rootBody))
+		case "resolveInNil":
+			doc := &openapi3.T{}
+			if err = json.Unmarshal(rootBody, doc); err == nil {
+				err = loader.ResolveRefsIn(doc, nil)
+			}
 		default:
 			_, err = loader.LoadFromData(rootBody)
 		}
@@ -1050,9 +1057,9 @@ func (u *c11Uni) docOrElem(view string, loc string, depth int) c11El {
 func c11RandomCase(r *hx.Rng) hx.Case {
 	u := &c11Uni{r: r, byKey: map[string]bool{}, budget: 2 + r.Intn(5)}
 	rootLoc := hx.Pick(r, []string{"/r/a/root.json", "/r/a/root.json", "/r/a/root.json", "http://h.example/r/a/root.json", "r/a/root.json", "/r/a/sub/root.json", "file:///r/a/root.json"})
-	entry := hx.Pick(r, []string{"file", "file", "file", "dataWithPath", "dataWithPath", "data", "data", "reader"})
+	entry := hx.Pick(r, []string{"file", "file", "file", "dataWithPath", "dataWithPath", "data", "data", "reader", "resolveInNil"})
 	base := rootLoc
-	if entry == "data" || entry == "reader" {
+	if entry == "data" || entry == "reader" || entry == "resolveInNil" {
 		base = ""
 	}
 	pu, _ := url.Parse(rootLoc)
@@ -1362,7 +1369,7 @@ func genC11(ctx *hx.Ctx, emit func(hx.Case)) {
 		{"shared%20defs/", "/r/a/shared%20defs/", false}, {"sp ace/", "/r/a/sp%20ace/", true}, {"d\u00e9f/", "/r/a/d%C3%A9f/", false},
 		{"a+b/", "/r/a/a+b/", true}, {"../b/sh%20x/", "/r/b/sh%20x/", true}, {"sub/d\u00e9 f/", "/r/a/sub/d%C3%A9%20f/", false},
 	}
-	entries := []string{"file", "dataWithPath", "data"}
+	entries := []string{"file", "dataWithPath", "data", "resolveInNil"}
 	for pi, p := range pos {
 		kind := jstr(c11At(skel, p), "k")
 		for si, sp := range spellings {
